@@ -243,15 +243,46 @@ func panicOrigin(stack string) string {
 // splitHeaderOnly returns the embedded schema text of a container, if the
 // header can be split by the independent splitter.
 func splitHeaderOnly(b []byte) ([]byte, error) {
-	f, err := splitPrefix(b)
-	if err != nil {
-		return nil, err
+	// the header's metadata only, without copying anything (this runs inside the allocation measurement)
+	if len(b) < 4 || !bytes.Equal(b[:4], []byte{'O', 'b', 'j', 1}) {
+		return nil, fmt.Errorf("no magic")
 	}
-	t, ok := f.Meta["avro.schema"]
-	if !ok {
+	pos := 4
+	var schema []byte
+	for {
+		count, p, err := readVar(b, pos)
+		if err != nil {
+			return nil, err
+		}
+		pos = p
+		if count == 0 {
+			break
+		}
+		if count < 0 {
+			if _, p, err = readVar(b, pos); err != nil {
+				return nil, err
+			}
+			pos, count = p, -count
+		}
+		for ; count > 0; count-- {
+			var kv [2][]byte
+			for i := 0; i < 2; i++ {
+				l, p, err := readVar(b, pos)
+				if err != nil || l < 0 || l > int64(len(b)-p) {
+					return nil, fmt.Errorf("bad metadata")
+				}
+				kv[i] = b[p : p+int(l)]
+				pos = p + int(l)
+			}
+			if string(kv[0]) == "avro.schema" {
+				schema = kv[1]
+			}
+		}
+	}
+	if schema == nil {
 		return nil, fmt.Errorf("no schema")
 	}
-	return t, nil
+	return schema, nil
 }
 
 const robustCaseTimeout = 20 * time.Second
